@@ -159,6 +159,7 @@ def make_check_arg_attrs(suffix, targs, params, extra_req=()):
         ],
         raises=["RuntimeError"],
     )
+    u.merge_ifs = True
     return u
 
 
